@@ -22,6 +22,14 @@ func init() {
 			"(\"the same settling period\"). A failed UpdateStatus after a release drops the computed ReprocessAll (fault sequence; noted in DESIGN.md O-1).",
 		Run: runC07,
 		Mutants: []Mutant{
+			{Name: "allocation-key-without-backend", File: "internal/allocator/allocator.go",
+				Old: "\t\treturn alloc.key.backend + alloc.key.sharing",
+				New: "\t\treturn alloc.key.sharing", Expect: "sharing-and-backend"},
+			{Name: "selectors-anded", File: "internal/allocator/allocator.go",
+				Old: "\t\t\tif svcSelector.Matches(svcLabels) {\n\t\t\t\treturn true\n\t\t\t}\n\t\t}\n\t\treturn false",
+				New: "\t\t\tif !svcSelector.Matches(svcLabels) {\n\t\t\t\treturn false\n\t\t\t}\n\t\t}\n\t\treturn true", Expect: "POOL-COMPAT"},
+			{Name: "family-swap-loses-ipv4", File: "internal/allocator/allocator.go",
+				Old: "\t\tprimaryIPFamily = ipfamily.IPv6\n\t\tsecondaryIPFamily = ipfamily.IPv4", New: "\t\tprimaryIPFamily = secondaryIPFamily\n\t\tsecondaryIPFamily = primaryIPFamily", Expect: "SCAN-ALL"},
 			{Name: "unassign-returns-early-for-removed-pool", File: "internal/allocator/allocator.go",
 				Old: "\tal := a.allocated[svc]\n\tdelete(a.allocated, svc)\n", New: "\tal := a.allocated[svc]\n\tdelete(a.allocated, svc)\n\tif _, ok := a.pools.ByName[al.pool]; !ok {\n\t\tdeleteStatsFor(al.pool)\n\t\treturn\n\t}\n", Expect: "UNASSIGN-COMPLETE"},
 			{Name: "key-gain-does-not-reprocess", File: "controller/main.go",
@@ -69,6 +77,8 @@ func runC07(p *chk.Prog, r *chk.Report) {
 	// a released allocation leaves nothing behind (UNASSIGN-COMPLETE, shared with C11): a ghost tenant or sharing key
 	// makes the address unusable for every later Service
 	unassignCompleteRule(p, r)
+	// a pool admits a Service that matches any one of its selectors (POOL-COMPAT, shared with C02)
+	c02PoolCompat(p, r)
 }
 
 func c07Release(p *chk.Prog, r *chk.Report) {
@@ -199,6 +209,43 @@ func c07Release(p *chk.Prog, r *chk.Report) {
 		}
 	}
 	x.Check("SetBalancer:key-change-requests-reprocess", f.Pos(), okKey && nBefore >= 1 && nAfter >= 1, "", "a Service whose allocation key changed while it kept its address (it started or stopped sharing) does not request a full re-sync under exactly that condition: Services waiting to share the address stay pending")
+	// ... and the key that is compared is the whole key: two Services share an address only with equal sharing AND
+	// backend keys, so a change of either one changes who may join
+	if kf := need(x, p, allocPkg, "Allocator", "AllocationKey"); kf != nil {
+		kg := kf.Graph()
+		okWhole, nKey := true, 0
+		for _, rt := range kg.Returns() {
+			res := retResults(rt)
+			if len(res) != 1 || kf.IsConstString(res[0], "") {
+				continue
+			}
+			nKey++
+			e := kf.Resolve(res[0])
+			sharing, backend := false, false
+			ast.Inspect(e, func(n ast.Node) bool {
+				if sel, isSel := n.(*ast.SelectorExpr); isSel {
+					if fld, isF := kf.ObjOf(sel.Sel).(*types.Var); isF && fld.IsField() {
+						switch fld.Name() {
+						case "sharing":
+							sharing = true
+						case "backend":
+							backend = true
+						}
+					}
+				}
+				return true
+			})
+			if tv := kf.Info().TypeOf(e); tv != nil {
+				if n, isN := types.Unalias(tv).(*types.Named); isN && n.Obj().Name() == "key" {
+					sharing, backend = true, true // the key itself
+				}
+			}
+			if !sharing || !backend {
+				okWhole = false
+			}
+		}
+		x.Check("AllocationKey:sharing-and-backend", kf.Pos(), okWhole && nKey > 0, "", "the allocation key that SetBalancer compares leaves out the sharing key or the backend key: a holder that changes the omitted one keeps its address without a re-sync, and the Services waiting to share it stay pending")
+	}
 	// releasedIPs: true exactly when some previous address p equals none of the current ones
 	rf := need(x, p, "controller", "", "releasedIPs")
 	if rf != nil {
@@ -258,8 +305,10 @@ func c07Release(p *chk.Prog, r *chk.Report) {
 			okk = okk && nTrue >= 1 && !loopHasBreak(rg, outer[0])
 			// an iteration of the outer loop goes on to the next previous address only when an equal current one was found
 			if okk {
-				ends := rg.LoopIteration(outer[0], chk.GOr(found...))
-				okk = len(found) > 0 && len(ends) > 0
+				// ... found: a flag set where the two were equal, or the jump to the next previous address taken right
+				// there (`continue outer` under p.Equal(c))
+				ends := rg.LoopIteration(outer[0], chk.GOr(append(append([]chk.Guard{}, found...), equal(true))...))
+				okk = len(ends) > 0
 				for _, e := range ends {
 					if !e.OK {
 						okk = false
@@ -415,6 +464,7 @@ func c07Scan(p *chk.Prog, r *chk.Report) {
 			}
 		}
 		x.Check("findBestPoolForService:every-pool", fb.Pos(), okk, "", why)
+		c07BothFamilies(x, fb, g)
 		// after the loop: candidates before the error
 		for _, rt := range g.Returns() {
 			res := retResults(rt)
@@ -529,4 +579,100 @@ func c07Thread(p *chk.Prog, r *chk.Report) {
 		})
 		r.Saw(f)
 	}
+}
+
+// c07BothFamilies: the two families whose addresses decide "this pool has both" / "a candidate for the first / second
+// choice" are IPv4 and IPv6 in one order or the other, whichever branch chose the order: with the same family twice a
+// pool that lacks one family counts as complete and pools holding only the other family are never candidates.
+func c07BothFamilies(x *chk.R, f *chk.Fn, g *chk.Graph) {
+	// the pair: two calls A.getIPForFamily(V) on the same allocation whose results are tested together (P != nil && S != nil)
+	var pv, sv *ast.Ident
+	for _, e := range g.FindPat("P != nil && S != nil") {
+		b := f.MatchNew("P != nil && S != nil", e.Node.(ast.Expr))
+		get := func(v ast.Expr) *ast.Ident {
+			id, ok := ast.Unparen(v).(*ast.Ident)
+			if !ok {
+				return nil
+			}
+			rhs, _ := g.DefOf(id, g.FactSite(id))
+			if m := f.MatchNew("A.getIPForFamily(F)", rhs); m != nil {
+				if fid, isId := ast.Unparen(m["F"]).(*ast.Ident); isId {
+					return fid
+				}
+			}
+			return nil
+		}
+		if a, c := get(b["P"]), get(b["S"]); a != nil && c != nil {
+			pv, sv = a, c
+		}
+	}
+	if pv == nil || sv == nil {
+		x.Fail("findBestPoolForService:families-are-distinct", f.Pos(), "no test `both families available` over two getIPForFamily results found")
+		return
+	}
+	famOf := func(e ast.Expr) string {
+		for _, n := range []string{"IPv4", "IPv6"} {
+			if isObjNamed(f, "internal/ipfamily."+n)(e) {
+				return n
+			}
+		}
+		return ""
+	}
+	// the branch conditions under which either variable is assigned: decided for each polarity of each of them
+	conds := map[string]ast.Expr{}
+	for _, id := range []*ast.Ident{pv, sv} {
+		for _, d := range assignsTo(f, f.ObjOf(id)) {
+			for m := f.Prog.Parent(d); m != nil; m = f.Prog.Parent(m) {
+				if is, ok := m.(*ast.IfStmt); ok {
+					conds[types.ExprString(is.Cond)] = is.Cond
+				}
+				if _, ok := m.(*ast.FuncDecl); ok {
+					break
+				}
+			}
+		}
+	}
+	type assumption struct {
+		txt string
+		val bool
+	}
+	cases := [][]assumption{{}}
+	for txt := range conds {
+		var next [][]assumption
+		for _, c := range cases {
+			next = append(next, append(append([]assumption{}, c...), assumption{txt, true}), append(append([]assumption{}, c...), assumption{txt, false}))
+		}
+		cases = next
+	}
+	ok := len(cases) <= 8
+	why := ""
+	for _, c := range cases {
+		var against []chk.Guard
+		for _, a := range c {
+			against = append(against, g.GPat(!a.val, a.txt))
+		}
+		cut := func(b *cfgBlock, k int) bool {
+			for _, ag := range against {
+				if g.EdgeImplies(b, k, ag) {
+					return true
+				}
+			}
+			return false
+		}
+		pvs, ok1 := g.ValuesUnder(pv, g.FactSite(pv), cut)
+		svs, ok2 := g.ValuesUnder(sv, g.FactSite(sv), cut)
+		if !ok1 || !ok2 || len(pvs) == 0 || len(svs) == 0 {
+			continue // an infeasible combination of branches
+		}
+		for _, a := range pvs {
+			for _, b := range svs {
+				fa, fb := famOf(a), famOf(b)
+				if fa == "" || fb == "" || fa == fb {
+					ok = false
+					why = "first choice " + types.ExprString(a) + ", second choice " + types.ExprString(b)
+				}
+			}
+		}
+	}
+	x.Check("findBestPoolForService:families-are-distinct", pv.Pos(), ok, "", "the first and the second choice family are not IPv4 and IPv6 in some order on every branch ("+why+"): a pool lacking one family counts as complete, pools holding only the other family are never candidates")
 }
